@@ -11,7 +11,15 @@ import (
 
 // checkResultSet evaluates C01's conclusions on a real result set.
 func checkResultSet(out *Output, what string, rs *zlint.ResultSet, wantNames []string, metas map[string]lint.LintMetadata) {
+	checkResultSetIn(out, what, rs, wantNames, metas, nil)
+}
+
+func checkResultSetIn(out *Output, what string, rs *zlint.ResultSet, wantNames []string, metas map[string]lint.LintMetadata, der []byte) {
 	bad := func(key, msg string) {
+		if der != nil {
+			out.Violate("C01|"+key, msg, map[string]interface{}{"object": what, "der": hexs(der)}, nil, nil)
+			return
+		}
 		out.Violate("C01|"+key, msg, what, nil, nil)
 	}
 	if rs == nil {
@@ -95,6 +103,10 @@ func genMonitor(out *Output, rng *Rng) {
 		nObj = len(corpus.Certs)
 	}
 	certs := corpus.sampleCerts(rng, nObj)
+	for _, zc := range certZoo() {
+		certs = append(certs, zc.CorpusCert)
+	}
+	out.Data["zoo_classes"] = zooClasses(certZoo())
 	runs := 0
 	for ri, r := range regs {
 		cn, ln, on, metas := kindNames(r)
@@ -110,10 +122,10 @@ func genMonitor(out *Output, rng *Rng) {
 			}()
 			runs++
 			if pv != nil {
-				out.Violate("C01|panic-escaped:cert:"+cc.File, fmt.Sprintf("LintCertificateEx panicked: %v", pv), cc.File, nil, nil)
+				out.Violate("C01|panic-escaped:cert:"+cc.File, fmt.Sprintf("LintCertificateEx panicked: %v", pv), map[string]interface{}{"file": cc.File, "der": hexs(cc.DER)}, nil, nil)
 				continue
 			}
-			checkResultSet(out, "cert "+cc.File, rs, cn, metas)
+			checkResultSetIn(out, "cert "+cc.File, rs, cn, metas, cc.DER)
 		}
 		for _, cc := range corpus.CRLs {
 			var rs *zlint.ResultSet
